@@ -101,6 +101,11 @@ func (w *World) PublishCancelled(g, t int) uint64 {
 func NewWorld(drivers []evt.Driver, seed uint64, record bool, opts ...ebu.Option) *World {
 	w := &World{Drivers: drivers, Record: record, noiseSeed: seed, NoisePct: 35}
 	w.Bus = ebu.New(opts...)
+	if seed%4 == 1 {
+		// a subscriber for the empty interface type (it only ever receives events whose own type is
+		// that): to every other type's registry it is a bystander
+		ebu.Subscribe(w.Bus, func(any) {})
+	}
 	return w
 }
 
